@@ -208,4 +208,8 @@ pub fn run(ctx: &Ctx) {
     ctx.require_class("history", "failed_union", 0.02);
     ctx.require_class("history", "cuckoo_eviction", 0.03);
     ctx.require_class("history", "union_ok_into_nonempty", 0.05);
+    if ctx.tier == Tier::Thorough && !ctx.failed() {
+        // coverage-guided search over the same case space (libFuzzer, 8 parallel campaigns)
+        crate::engine::fuzz::run_filter_ops(ctx, 3, 160_000);
+    }
 }
